@@ -310,6 +310,15 @@ func (m *Manager) AssignAddress(ctx context.Context, sessionID string, ipv4PoolI
 		}
 
 		m.mu.Lock()
+		if m.sessions[sessionID] != session || session.State == StateTerminating {
+			// The session was terminated while the address was being allocated;
+			// its termination has released what it held then, not this address
+			m.mu.Unlock()
+			if err := m.allocator.ReleaseIPv4(context.WithoutCancel(ctx), ip); err != nil {
+				m.logger.Warn("Failed to release IPv4", zap.String("session_id", sessionID), zap.Error(err))
+			}
+			return fmt.Errorf("session terminated: %s", sessionID)
+		}
 		session.IPv4 = ip
 		session.SubnetMask = mask
 		session.Gateway = gateway
@@ -328,6 +337,15 @@ func (m *Manager) AssignAddress(ctx context.Context, sessionID string, ipv4PoolI
 			)
 		} else {
 			m.mu.Lock()
+			if m.sessions[sessionID] != session || session.State == StateTerminating {
+				m.mu.Unlock()
+				if ip != nil {
+					if err := m.allocator.ReleaseIPv6(context.WithoutCancel(ctx), ip); err != nil {
+						m.logger.Warn("Failed to release IPv6", zap.String("session_id", sessionID), zap.Error(err))
+					}
+				}
+				return fmt.Errorf("session terminated: %s", sessionID)
+			}
 			session.IPv6 = ip
 			session.IPv6Prefix = prefix
 			if ip != nil {
@@ -499,14 +517,16 @@ func (m *Manager) TerminateSession(ctx context.Context, sessionID string, reason
 	}
 
 	m.mu.Lock()
-	// Remove from indexes
-	if session.MAC != nil {
+	// Remove from indexes - only the entries that still belong to this session:
+	// while the addresses were being released, its MAC or addresses may have
+	// been indexed for a new session
+	if session.MAC != nil && m.byMAC[session.MAC.String()] == sessionID {
 		delete(m.byMAC, session.MAC.String())
 	}
-	if session.IPv4 != nil {
+	if session.IPv4 != nil && m.byIP[session.IPv4.String()] == sessionID {
 		delete(m.byIP, session.IPv4.String())
 	}
-	if session.IPv6 != nil {
+	if session.IPv6 != nil && m.byIP[session.IPv6.String()] == sessionID {
 		delete(m.byIP, session.IPv6.String())
 	}
 
